@@ -22,7 +22,7 @@
     deep-compares host and pattern before/after every call (TESTED_NOT_PROVED). *)
 From Coq Require Import List NArith Bool Arith Permutation SetoidList Relations.
 From SK Require Import lib.LGraph lib.Mono model.C06_Model lib.C06_Spec
-  proof.C06_All proof.C06_Comp proof.C06_Comps proof.C06_CompSem proof.C06_CompNoDup proof.C06_Prefilter proof.C06_Table proof.C06_Main.
+  proof.C06_All proof.C06_Comp proof.C06_Comps proof.C06_CompSem proof.C06_CompNoDup proof.C06_Prefilter proof.C06_Table proof.C06_Api proof.C06_Main.
 Import ListNotations.
 
 (** ** 0. What the specification predicates say, written out *)
@@ -248,3 +248,44 @@ Print Assumptions C06_prefilter_sound.
 Theorem C06_input_premise_monitor : forall g : graph, wfb g = true -> LGraph.wf g /\ gwf g.
 Proof. exact wfb_spec. Qed.
 Print Assumptions C06_input_premise_monitor.
+
+(** ** 5. The call interface (Strategy.from_string and the option defaults; [find_api] is what
+    [run_api] evaluates on the "api" population, where the harness hands over exactly what the
+    caller wrote - omitted options included) *)
+
+(** accepted strategy spellings: exactly the case variants of "all" / "comp" / "bt" / "partial"
+    (byte strings; A-Z folded to a-z); everything else is a ValueError *)
+Theorem C06_from_string : forall (s : list N) (k : N),
+  from_string s = Some k <->
+  (k = 0%N /\ map lower_byte s = [97; 108; 108]%N) \/
+  (k = 1%N /\ map lower_byte s = [99; 111; 109; 112]%N) \/
+  (k = 2%N /\ map lower_byte s = [98; 116]%N) \/
+  (k = 3%N /\ map lower_byte s = [112; 97; 114; 116; 105; 97; 108]%N).
+Proof. exact from_string_spec. Qed.
+Print Assumptions C06_from_string.
+
+(** every option omitted = comp, no cap, strict component count, threshold 5000, no pre-filter;
+    a string behaves as the member it denotes; "partial" is refused; max_results = 0 is None *)
+Theorem C06_api : forall (enum : list N -> list N -> list mapping) (H P : graph),
+  find_api enum SDefault None None None None H P = Result (find enum (Cfg 1 0 5000 true false) H P) /\
+  (forall s maxr strict thr pref,
+     find_api enum (SStr s) maxr strict thr pref H P =
+     match from_string s with
+     | None => ValueError
+     | Some k => find_api enum (SMember k) maxr strict thr pref H P
+     end) /\
+  (forall k maxr strict thr pref, (k < 3)%N ->
+     find_api enum (SMember k) maxr strict thr pref H P =
+     Result (find enum (Cfg k (match maxr with Some m => m | None => 0%N end)
+                              (match thr with Some t => t | None => 5000%N end)
+                              (match strict with Some b => b | None => true end)
+                              (match pref with Some b => b | None => false end)) H P)) /\
+  (forall maxr strict thr pref, find_api enum (SMember 3) maxr strict thr pref H P = NotImplemented) /\
+  (forall s strict thr pref,
+     find_api enum s (Some 0%N) strict thr pref H P = find_api enum s None strict thr pref H P).
+Proof.
+  exact (fun enum H P => conj (api_defaults enum H P) (conj (fun s m st t p => api_strategy enum s m st t p H P)
+          (conj (fun k m st t p => api_member enum k m st t p H P) (conj (fun m st t p => api_partial enum m st t p H P)
+          (fun s st t p => api_maxr_zero enum s st t p H P))))).
+Qed.
+Print Assumptions C06_api.
